@@ -20,8 +20,9 @@ package snapstate_test
 //	accepted  ⇒  change settles Done; ordered kept revisions identical; current = target; target linked;
 //	             revisions present on the system unchanged; no copy-data call; no data copy appears or disappears;
 //	             Block() = revisions after the new current minus the NotBlocked-marked ones, where a mark is
-//	             set by a NotBlocked revert *from* that revision and cleared when that revision is linked again,
-//	             reverted from with a blocking revert, or discarded
+//	             set by a NotBlocked revert *from* that revision and cleared when that revision is linked again
+//	             by a refresh to it or by enabling the snap while it is current, reverted from with a blocking
+//	             revert, or discarded
 //	next refresh ⇒ the store request built by a refresh of everything carries exactly Block() for this snap, and
 //	             the snap is refreshed to the offered revision iff that revision is not in Block() (and not current).
 //
@@ -274,6 +275,9 @@ func (r *c13Run) history(req worldReq) error {
 	switch rr.Op {
 	case "refresh", "refresh-kept":
 		r.model.refreshed(rr.Rev, before.Seq, after.Seq)
+	case "enable":
+		// enabling links the current revision again
+		r.model.refreshed(after.Current, before.Seq, after.Seq)
 	default:
 		r.model.gone(before.Seq, after.Seq)
 	}
@@ -437,6 +441,8 @@ func (r *c13Run) probe(p c13Probe) error {
 		if err := r.settle(chg, "enable"); err != nil {
 			return err
 		}
+		// enabling links the current revision again
+		delete(r.model.marks, w.view(name).Current)
 		if err := r.checkBlock("after enabling again"); err != nil {
 			return err
 		}
